@@ -488,49 +488,17 @@ def loss_markers(prog: Program) -> RuleResult:
             res.fail(construct, "; ".join(problems), mod, arm)
         else:
             res.ok(construct, f"{len(observed)} child(ren), D{next(iter(want.values())):+d} markers each" if want else "none")
-    # _add_losses: one pseudo-gene per species strictly between start and end
-    al = prog.func(LAYOUT, "_add_losses")
-    params = func_params(al)
-    start_p, end_p = params[2], params[3]
-    loops = [n for n in al.body if isinstance(n, ast.While)]
+    # _add_losses itself (one virtual node per species strictly between start and end, whatever the loop form) is
+    # decided by LOSS-WALK over the relational model; the table above relies on it.
+    from ..rules import extra as _extra
+
+    walk = _extra.loss_walk(prog)
     construct = f"{LAYOUT}:_add_losses/walk"
-    problems = []
-    if len(loops) != 1:
-        raise AnalysisError("_add_losses: while loop not recognised")
-    loop = loops[0]
-    t = loop.test
-    if not (
-        isinstance(t, ast.Compare)
-        and len(t.ops) == 1
-        and isinstance(t.ops[0], (ast.NotEq, ast.IsNot))
-        and {dotted(t.left), dotted(t.comparators[0])} == {start_p, end_p}
-    ):
-        problems.append(f"the walk continues while `{short(t)}` instead of `{start_p} != {end_p}`")
-    pre = al.body[: al.body.index(loop)]
-    advanced_before = any(
-        isinstance(s, ast.Assign) and dotted(s.targets[0]) == start_p and ast.unparse(s.value) == f"{start_p}.up" for s in pre
-    )
-    if not advanced_before:
-        problems.append("the walk does not step to the parent before the first marker (a marker is put in the child's own species)")
-    created = [c for c in calls_in(loop) if dotted(c.func) == "PseudoGene"]
-    stores = [
-        n
-        for n in walk_no_nested(loop)
-        if isinstance(n, ast.Assign) and isinstance(n.value, ast.Dict) and "branches" in ast.unparse(n.targets[0])
-    ]
-    if len(created) != 1 or len(stores) != 1:
-        problems.append(f"{len(created)} pseudo-genes / {len(stores)} branches are created per skipped species (expected 1 / 1)")
-    advanced_in = [
-        s for s in loop.body if isinstance(s, ast.Assign) and dotted(s.targets[0]) == start_p and ast.unparse(s.value) == f"{start_p}.up"
-    ]
-    if len(advanced_in) != 1 or loop.body[-1] is not advanced_in[0]:
-        problems.append("the walk does not move one species up per iteration")
-    if any(isinstance(n, (ast.Break, ast.Continue, ast.Return)) for n in walk_no_nested(loop)):
-        problems.append("the walk can leave an iteration early")
-    if problems:
-        res.fail(construct, "; ".join(problems), mod, loop)
+    bad = [f for f in walk.findings if f.construct.endswith("/one-per-species")]
+    if bad:
+        res.fail(construct, bad[0].message, mod, prog.func(LAYOUT, "_add_losses"))
     else:
-        res.ok(construct, "one pseudo-gene per species strictly between the child's species and the end")
+        res.ok(construct, "one pseudo-gene per species strictly between the child's species and the end (LOSS-WALK)")
     return res
 
 
@@ -1351,30 +1319,17 @@ def placed_in_species(prog: Program) -> RuleResult:
             res.fail(construct, f"`{short(st.targets[0])}` is stored in `{holder}`, which is not the state registered for `{sp}` ({sorted(state_names)})", mod, st)
         else:
             res.ok(construct, f"{holder}['branches'][{gene}] in the state of `{sp}`")
-    # _add_losses: the state is that of the species the walk is at
-    al = prog.func(LAYOUT, "_add_losses")
+    # _add_losses: each loss node is stored in the state of the species the walk is at - decided by LOSS-WALK over
+    # the relational model (the species of every recorded branch is compared with the expected chain)
+    from ..rules import extra as _extra
+
+    walk = _extra.loss_walk(prog)
     construct = f"{LAYOUT}:_add_losses/state"
-    loop = next((l for l in al.body if isinstance(l, ast.While)), None)
-    if loop is None:
-        raise AnalysisError("_add_losses: loop not found")
-    walker = None
-    if isinstance(loop.test, ast.Compare):
-        walker = dotted(loop.test.left)
-    st_assign = next((st for st in loop.body if isinstance(st, ast.Assign) and isinstance(st.value, ast.Subscript) and dotted(st.value.slice) == walker), None)
-    if st_assign is None:
-        res.fail(construct, f"the state used for a loss node is not `layout_state[{walker}]` of the species the walk is at", mod, loop)
+    bad = [f for f in walk.findings if f.construct.endswith(("/one-per-species", "/anchor"))]
+    if bad:
+        res.fail(construct, bad[0].message, mod, prog.func(LAYOUT, "_add_losses"))
     else:
-        holder = dotted(st_assign.targets[0])
-        bad = [
-            st for st in ast.walk(loop)
-            if isinstance(st, ast.Assign) and isinstance(st.targets[0], ast.Subscript) and isinstance(st.targets[0].value, ast.Subscript)
-            and dotted(st.targets[0].value.value) not in (holder, None) and isinstance(st.targets[0].value.slice, ast.Constant)
-            and st.targets[0].value.slice.value in ("branches",)
-        ]
-        if bad:
-            res.fail(construct, f"`{short(bad[0].targets[0])}` stores a loss node outside the state of the current species", mod, bad[0])
-        else:
-            res.ok(construct, f"loss nodes go to layout_state[{walker}]")
+        res.ok(construct, "loss nodes go to the state of the species the walk is at (LOSS-WALK)")
     return res
 
 
